@@ -560,10 +560,16 @@ func ResolveSpecSource(ctx context.Context, specSource interface{}) (*crew.SpecS
 			}
 			body, err = ioutil.ReadAll(resp.Body)
 			resp.Body.Close()
+			if err != nil {
+				return nil, nil, err
+			}
+		}
+		if err != nil {
+			return nil, nil, err
 		}
 
 		var spec core.Spec
-		if body[0] == '{' {
+		if 0 < len(body) && body[0] == '{' {
 			err = json.Unmarshal(body, &spec)
 		} else {
 			err = yaml.Unmarshal(body, &spec)
